@@ -50,6 +50,39 @@ def comp_value_wrapper(comp: ast.DictComp) -> Optional[str]:
   return None
 
 
+def deepcopy_memo_rules(ctx: Ctx, rs: RuleSet, rule: str):
+  """The memo handed to copy.deepcopy is the caller's, pre-seeded only with
+
+  the immutable signature (nothing mutable is exempted from copying).
+  """
+  p = ctx.p
+  df = ctx.func(f'{B}.__deepcopy__')
+  g = ctx.cfg(df)
+  memo = df.params[1]
+  seeds = [n for n in walk_function(df.node) if isinstance(n, ast.Assign) and
+           any(isinstance(t, ast.Subscript) and unparse(t.value) == memo
+               for t in n.targets)]
+  ok_seed = all(unparse(s.value).endswith('.signature') and
+                unparse(s.targets[0].slice) == f'id({unparse(s.value)})'
+                for s in seeds) and len(seeds) <= 1
+  rebound = [n for n in walk_function(df.node) if isinstance(
+      n, (ast.Assign, ast.AugAssign, ast.AnnAssign)) and any(
+          isinstance(t, ast.Name) and t.id == memo
+          for t in (n.targets if isinstance(n, ast.Assign) else [n.target]))]
+  rs.check(not rebound, rule, f'{df.qualname}:memo-shared',
+           'the memo passed on to copy.deepcopy is the caller\'s memo object '
+           '(objects shared between sub-Buildables are copied once)'
+           if not rebound else
+           f'`{unparse(rebound[0])}` replaces the caller\'s memo: copies made '
+           'below this Buildable are not recorded for its siblings, so a node '
+           'shared across sub-Buildables is duplicated by deepcopy',
+           ctx.loc(df, rebound[0] if rebound else df.node))
+  rs.check(ok_seed, rule, f'{df.qualname}:memo-seed',
+           'the memo is pre-seeded only with the immutable signature object '
+           f'({[unparse(s) for s in seeds]})', ctx.loc(df, df.node))
+  return df, g, memo
+
+
 def run(ctx: Ctx, rs: RuleSet, tier: str):
   p = ctx.p
   rule = 'FRESHC.copy-containers'
@@ -195,30 +228,7 @@ def run(ctx: Ctx, rs: RuleSet, tier: str):
              ctx.loc(f, f.node))
 
   # 7. __deepcopy__
-  df = ctx.func(f'{B}.__deepcopy__')
-  g = ctx.cfg(df)
-  memo = df.params[1]
-  seeds = [n for n in walk_function(df.node) if isinstance(n, ast.Assign) and
-           any(isinstance(t, ast.Subscript) and unparse(t.value) == memo
-               for t in n.targets)]
-  ok_seed = all(unparse(s.value).endswith('.signature') and
-                unparse(s.targets[0].slice) == f'id({unparse(s.value)})'
-                for s in seeds) and len(seeds) <= 1
-  rebound = [n for n in walk_function(df.node) if isinstance(
-      n, (ast.Assign, ast.AugAssign, ast.AnnAssign)) and any(
-          isinstance(t, ast.Name) and t.id == memo
-          for t in (n.targets if isinstance(n, ast.Assign) else [n.target]))]
-  rs.check(not rebound, rule, f'{df.qualname}:memo-shared',
-           'the memo passed on to copy.deepcopy is the caller\'s memo object '
-           '(objects shared between sub-Buildables are copied once)'
-           if not rebound else
-           f'`{unparse(rebound[0])}` replaces the caller\'s memo: copies made '
-           'below this Buildable are not recorded for its siblings, so a node '
-           'shared across sub-Buildables is duplicated by deepcopy',
-           ctx.loc(df, rebound[0] if rebound else df.node))
-  rs.check(ok_seed, rule, f'{df.qualname}:memo-seed',
-           'the memo is pre-seeded only with the immutable signature object '
-           f'({[unparse(s) for s in seeds]})', ctx.loc(df, df.node))
+  df, g, memo = deepcopy_memo_rules(ctx, rs, rule)
   ok = False
   for c in ctx.calls(df):
     if isinstance(c.func, ast.Attribute) and c.func.attr == 'update' and (
